@@ -21,6 +21,12 @@ type FileSummary struct {
 	FileDependencies []string
 	TypeDependencies []*schema_j5pb.Ref
 
+	// DependencyPositions maps a package named by TypeDependencies or
+	// FileDependencies to the import statement in the source file which
+	// brings it in, so that a failure to load the package can be reported
+	// there. Packages without a known position are absent.
+	DependencyPositions map[string]*errpos.Position
+
 	ProducesFiles []string
 }
 
